@@ -39,7 +39,12 @@ What is stated where (clause → theorem):
 * fees: `fees_formula`, `fees_out_of_range_is_error`, `elected_fees_attached` (one message),
   `elected_and_fees_written_only_by_endBlock`, `fees_provenance`, `elected_immutable_hist` (written once),
   `attached_fees_are_ceil`, `offered_fee_payer_carries_ceil_fees`, `offered_fee_payer_carries_ceil_fees_no_put`
-  (over whole histories); scope witness `put_path_offers_fee_payer_without_fees`.
+  (over whole histories); scope witness `put_path_offers_fee_payer_without_fees`;
+* fees at the `uint64` boundary: `mulFee_some_iff` / `calcFees_some_iff` (attachment succeeds EXACTLY with the three
+  ceils when they fit), `mulFee_none_iff` / `calcFees_none_iff` (refused exactly above `(2^64 − 1)·10^18`),
+  `fee_window_is_refused` (products strictly between `2^64 − 1` and `2^64`), `unpayable_election_changes_nothing`
+  (such a message is neither elected nor offered), `attached_fees_are_positive`, `offeredCarrying_spec` (the
+  `relayf` observable), sensitivity witness `narrow_before_rounding_breaks_formula`.
 -/
 import PalomaModel.Model.Queue
 import PalomaModel.Props.C06
@@ -1316,6 +1321,214 @@ theorem offered_fee_payer_carries_ceil_fees_no_put (ops : List Op)
   obtain ⟨_, hel, hrest⟩ := attached_fees_are_ceil ops it hit r cf sf hf
   exact ⟨ha, hel, r, cf, sf, hf, hrest⟩
 
+/-! ### the `uint64` boundary of the fee formula -/
+
+/-- **mulFee_some_iff** (clause 3, exact, one product).  The `mul` closure answers `r` exactly when the
+multiplier is not negative, `r = ⌈m·v⌉` (two-sided bound) and `r` fits `uint64`.  The direction from right to
+left is the completeness half of `fees_formula`: a ceil that fits is the fee, and nothing else is. -/
+theorem mulFee_some_iff (m : Int) (v r : Nat) :
+    mulFee m v = some r ↔ 0 ≤ m ∧ P * ((r : Int) - 1) < m * v ∧ m * v ≤ P * r ∧ r < U64 := by
+  constructor
+  · intro h
+    unfold mulFee at h
+    split at h
+    · cases h
+    · have hk0 : 0 ≤ m := by omega
+      have hx : 0 ≤ m * (v : Int) := Int.mul_nonneg hk0 (Int.natCast_nonneg v)
+      obtain ⟨he, hb⟩ := toU64_spec h
+      obtain ⟨h1, h2⟩ := ceilDec_spec _ hx
+      rw [← he] at h1 h2
+      exact ⟨hk0, h1, h2, hb⟩
+  · rintro ⟨h0, h1, h2, h3⟩
+    have hx : 0 ≤ m * (v : Int) := Int.mul_nonneg h0 (Int.natCast_nonneg v)
+    obtain ⟨c1, c2⟩ := ceilDec_spec _ hx
+    have hc : ceilDec (m * (v : Int)) = (r : Int) := by
+      generalize ceilDec (m * (v : Int)) = y at c1 c2
+      generalize m * (v : Int) = x at h1 h2 c1 c2
+      unfold P at h1 h2 c1 c2
+      omega
+    unfold mulFee
+    rw [if_neg (by omega), hc]
+    unfold toU64
+    rw [if_neg (by omega)]
+    simp [h3]
+
+/-- **mulFee_none_iff** (clause 3, the refusal side, exact threshold).  The `mul` closure fails exactly for a
+negative multiplier and for a product ABOVE `(2^64 − 1)·10^18` — that is, as soon as the ceil needs 65 bits,
+which includes every product strictly between `2^64 − 1` and `2^64` (whose truncated quotient still fits). -/
+theorem mulFee_none_iff (m : Int) (v : Nat) :
+    mulFee m v = none ↔ m < 0 ∨ P * ((U64 : Int) - 1) < m * v := by
+  constructor
+  · intro h
+    by_cases hm : m < 0
+    · exact Or.inl hm
+    · right
+      have h0 : 0 ≤ m := by omega
+      have hx : 0 ≤ m * (v : Int) := Int.mul_nonneg h0 (Int.natCast_nonneg v)
+      obtain ⟨c1, c2⟩ := ceilDec_spec _ hx
+      unfold mulFee at h
+      rw [if_neg hm] at h
+      unfold toU64 at h
+      split at h
+      · rename_i hneg
+        generalize ceilDec (m * (v : Int)) = y at c1 c2 hneg
+        generalize m * (v : Int) = x at hx c1 c2
+        unfold P at c1 c2
+        omega
+      · split at h
+        · cases h
+        · rename_i hnn hbig
+          generalize ceilDec (m * (v : Int)) = y at c1 c2 hnn hbig
+          generalize m * (v : Int) = x at hx c1 c2
+          unfold P at c1 c2 ⊢
+          unfold U64 at hbig ⊢
+          omega
+  · intro h
+    cases hr : mulFee m v with
+    | none => rfl
+    | some r =>
+      exfalso
+      obtain ⟨h0, _, h2, h3⟩ := (mulFee_some_iff m v r).mp hr
+      rcases h with h | h
+      · omega
+      · generalize m * (v : Int) = x at h h2
+        unfold P at h h2
+        unfold U64 at h h3
+        omega
+
+/-- **fee_window_is_refused.** A product strictly between `2^64 − 1` and `2^64` is refused although its integer
+part fits `uint64`: rounding comes first, the range check second. -/
+theorem fee_window_is_refused (m : Int) (v : Nat) (h1 : P * ((U64 : Int) - 1) < m * v) (_h2 : m * v < P * (U64 : Int)) :
+    mulFee m v = none := (mulFee_none_iff m v).mpr (Or.inr h1)
+
+/-- **calcFees_some_iff** (clause 3, exact, all three fees).  Fee attachment succeeds with `(r, cf, sf)` exactly
+when `r = ⌈m·g⌉`, `cf = ⌈c·r⌉`, `sf = ⌈s·r⌉`, no multiplier is negative and every one of the three fits `uint64`. -/
+theorem calcFees_some_iff (m c s : Int) (g r cf sf : Nat) :
+    calcFees m c s g = some (r, cf, sf) ↔
+      (0 ≤ m ∧ P * ((r : Int) - 1) < m * g ∧ m * g ≤ P * r ∧ r < U64) ∧
+      (0 ≤ c ∧ P * ((cf : Int) - 1) < c * r ∧ c * r ≤ P * cf ∧ cf < U64) ∧
+      (0 ≤ s ∧ P * ((sf : Int) - 1) < s * r ∧ s * r ≤ P * sf ∧ sf < U64) := by
+  rw [← mulFee_some_iff, ← mulFee_some_iff, ← mulFee_some_iff]
+  unfold calcFees
+  constructor
+  · intro h
+    split at h
+    · cases h
+    · rename_i r' hr
+      split at h
+      · cases h
+      · rename_i cf' hc
+        split at h
+        · cases h
+        · rename_i sf' hsf
+          injection h with h
+          injection h with h1 h2
+          injection h2 with h2 h3
+          subst h1 h2 h3
+          exact ⟨hr, hc, hsf⟩
+  · rintro ⟨h1, h2, h3⟩
+    simp [h1, h2, h3]
+
+/-- **calcFees_none_iff** (clause 3, refusal, exact).  Fee attachment fails exactly when one of the three
+products has a negative multiplier or lies above `(2^64 − 1)·10^18` (`r` is the relayer fee `⌈m·g⌉`). -/
+theorem calcFees_none_iff (m c s : Int) (g : Nat) :
+    calcFees m c s g = none ↔
+      (m < 0 ∨ P * ((U64 : Int) - 1) < m * g) ∨
+      ∃ r, mulFee m g = some r ∧
+        ((c < 0 ∨ P * ((U64 : Int) - 1) < c * r) ∨ (s < 0 ∨ P * ((U64 : Int) - 1) < s * r)) := by
+  rw [← mulFee_none_iff]
+  unfold calcFees
+  cases hr : mulFee m g with
+  | none => simp
+  | some r =>
+    simp only [reduceCtorEq, false_or, Option.some.injEq, exists_eq_left']
+    rw [← mulFee_none_iff, ← mulFee_none_iff]
+    cases hc : mulFee c r with
+    | none => simp
+    | some cf =>
+      cases hs : mulFee s r with
+      | none => simp
+      | some sf => simp
+
+/-- **unpayable_election_changes_nothing** (clauses 2 + 3 at the boundary, one end-block step).  A fee-paying
+message whose estimates reach quorum on `g` while the assignee's multiplier `m` gives a relayer fee beyond
+`uint64` (`m·g > (2^64 − 1)·10^18`) is left exactly as it was by the end-block step: no estimate is elected, no
+fees are attached, so (by `offered_iff`) it is not offered. -/
+theorem unpayable_election_changes_nothing (env : Env) (snap : Snap) (it : Item) (hk : it.kind.feePayer = true)
+    (g : Nat) (m : Int) (hv : Paloma.Libcons.verifyGasEstimates (libSnap snap) it.estimates = .elected g)
+    (hm : assoc? env.fees it.assignee = some m) (hbig : P * ((U64 : Int) - 1) < m * g) :
+    electOne env snap it = it := by
+  by_cases hch : electOne env snap it = it
+  · exact hch
+  · exfalso
+    obtain ⟨g', m', f, hv', hm', _, hcalc, _⟩ := elected_fees_attached env snap it hk hch
+    rw [hv] at hv'
+    injection hv' with hg
+    subst hg
+    rw [hm] at hm'
+    injection hm' with hmm
+    subst hmm
+    have : calcFees m env.community env.security g = none :=
+      (calcFees_none_iff _ _ _ _).mpr (Or.inl (Or.inr hbig))
+    rw [this] at hcalc
+    cases hcalc
+
+/-- **attached_fees_are_positive** (consequence of clause 3 over whole histories).  Fees attached to a queued
+message are never zero: the multiplier and both rates are positive and the elected estimate is at least 1, so
+each ceil is at least 1. -/
+theorem attached_fees_are_positive (ops : List Op) (it : Item) (hit : it ∈ (run ops).queue) (r cf sf : Nat)
+    (hf : it.fees = some (r, cf, sf)) : 1 ≤ r ∧ 1 ≤ cf ∧ 1 ≤ sf := by
+  obtain ⟨_, hel, pre, _, m, _, _, hm, hc, hs, _, a2, _, a4, _, a6, _⟩ := attached_fees_are_ceil ops it hit r cf sf hf
+  have hg : (0 : Int) < (it.elected : Int) := by omega
+  have h1 : 0 < m * (it.elected : Int) := Int.mul_pos hm hg
+  have hr : 1 ≤ r := by
+    generalize m * (it.elected : Int) = x at h1 a2
+    unfold P at a2
+    omega
+  have hr' : (0 : Int) < (r : Int) := by omega
+  have h2 : 0 < (run pre).env.community * (r : Int) := Int.mul_pos hc hr'
+  have h3 : 0 < (run pre).env.security * (r : Int) := Int.mul_pos hs hr'
+  refine ⟨hr, ?_, ?_⟩
+  · generalize (run pre).env.community * (r : Int) = x at h2 a4
+    unfold P at a4
+    omega
+  · generalize (run pre).env.security * (r : Int) = x at h3 a6
+    unfold P at a6
+    omega
+
+/-- **offeredCarrying_spec.** What the relay answer is compared with in the line protocol (`relayf`): every entry
+of `offeredCarrying` is an offered message of the queue with exactly its elected estimate and fees. -/
+theorem offeredCarrying_spec (q : List Item) (v : Nat) (e : Nat × Nat × Option (Nat × Nat × Nat))
+    (h : e ∈ offeredCarrying q v) :
+    e.1 ∈ offeredPage q v ∧ ∃ it ∈ q, it.id = e.1 ∧ it.elected = e.2.1 ∧ it.fees = e.2.2 := by
+  unfold offeredCarrying at h
+  obtain ⟨id, hid, hm⟩ := List.mem_filterMap.mp h
+  cases hg : getItem q id with
+  | none => rw [hg] at hm; cases hm
+  | some it =>
+    rw [hg] at hm
+    simp only [Option.map_some, Option.some.injEq] at hm
+    unfold getItem at hg
+    have hmem := List.mem_of_find?_eq_some hg
+    have hp := List.find?_some hg
+    have hidd : it.id = id := by simpa using hp
+    subst hm
+    exact ⟨by simpa [hidd] using hid, it, hmem, rfl, rfl, rfl⟩
+
+/-- **narrow_before_rounding_breaks_formula** (sensitivity witness).  A `mul` closure that range-checks the
+truncated quotient first and rounds up afterwards on the `uint64` agrees with the code that exists on every
+product at or below `2^64 − 1` and at or above `2^64`, and answers a fee of 0 on a product in between
+(multiplier 9223372036854775807.75, two gas): it violates `mulFee_some_iff` / `fees_formula`, the real closure
+refuses. -/
+theorem narrow_before_rounding_breaks_formula :
+    mulFeeNarrowFirst 9223372036854775807750000000000000000 2 = some 0 ∧
+    mulFee 9223372036854775807750000000000000000 2 = none ∧
+    mulFeeNarrowFirst 18446744073709551615000000000000000001 1 = some 0 ∧
+    mulFee 18446744073709551615000000000000000001 1 = none ∧
+    mulFeeNarrowFirst 18446744073709551615000000000000000000 1 = mulFee 18446744073709551615000000000000000000 1 ∧
+    mulFeeNarrowFirst 18446744073709551616000000000000000000 1 = mulFee 18446744073709551616000000000000000000 1 ∧
+    mulFeeNarrowFirst 1250000000000000000 21000 = mulFee 1250000000000000000 21000 := by decide
+
 /-! ### non-vacuity -/
 
 def demoEnv : Env :=
@@ -1329,6 +1542,15 @@ example : pick demoEnv false 0 = some (1, 4) ∧ pick demoEnv false 1 = some (2,
 example : pick { demoEnv with fees := [(3, P)] } false 0 = none := by decide
 example : calcFees 1100000000000000000 30000000000000000 10000000000000000 21001 = some (23102, 694, 232) := by decide
 example : calcFees 18446744073709551615000000000000000001 1 1 1 = none := by decide
+-- the window (2^64 − 1, 2^64): the hypotheses of `fee_window_is_refused` are met by 9223372036854775807.75 × 2; the
+-- same product refuses the attachment at each of the three stages; the largest payable fee is attached
+example : P * ((U64 : Int) - 1) < 9223372036854775807750000000000000000 * ((2 : Nat) : Int) ∧
+    9223372036854775807750000000000000000 * ((2 : Nat) : Int) < P * (U64 : Int) := by decide
+example : calcFees 9223372036854775807750000000000000000 P P 2 = none ∧
+    calcFees P 9223372036854775807750000000000000000 P 2 = none ∧
+    calcFees P P 9223372036854775807750000000000000000 2 = none := by decide
+example : calcFees 18446744073709551615000000000000000000 1 1 1 = some (18446744073709551615, 19, 19) ∧
+    calcFees 9223372036854775807500000000000000000 P P 2 = some (18446744073709551615, 18446744073709551615, 18446744073709551615) := by decide
 
 def demoQ : List Item :=
   [ { id := 1, kind := .slc, content := 1, sender := 7, assignee := 1, remote := 4, reqEst := true },
@@ -1396,6 +1618,24 @@ example : ∀ o ∈ demoHist, ∀ k c sd a r q, o ≠ Op.put k c sd a r q := by
   intro o ho k c sd a r q h
   subst h
   simp [demoHist] at ho
+
+/-- **boundary history** (`unpayable_election_changes_nothing`, non-vacuous and through `run`): validator 1 has the
+multiplier 9223372036854775807.75 on record, the validators agree on 2 gas for both messages: the end-block step
+elects nothing for message 1 (assigned to validator 1) and it is not offered, while message 2 (validator 2,
+multiplier 1.5) is elected and offered in the same step; after validator 1 lowers its multiplier to 9223372036854775807.5 the next end-block
+step elects 2 gas, attaches the largest relayer fee a `uint64` holds, and the message is offered -/
+def demoBoundary : List Op :=
+  [ .setEnv { demoEnv with fees := [(1, 9223372036854775807750000000000000000), (2, 1500000000000000000)] },
+    .enqueue .slc 7 9 false 1, .put .slc 8 5 2 8 true,
+    .addEstimate 2 1 2, .addEstimate 2 2 2, .addEstimate 2 3 2, .addEstimate 1 1 2, .addEstimate 1 2 2, .addEstimate 1 3 2,
+    .endBlock ]
+
+example : ((run demoBoundary).queue.map fun it => (it.id, it.assignee)) = [(1, 1), (2, 2)] ∧
+    ((run demoBoundary).queue.map fun it => (it.id, it.elected, it.fees)) = [(1, 0, none), (2, 2, some (3, 1, 1))] ∧
+    offeredCarrying (run demoBoundary).queue 1 = [] ∧ offeredCarrying (run demoBoundary).queue 2 = [(2, 2, some (3, 1, 1))] := by decide
+example : offeredCarrying (run (demoBoundary ++
+      [.setEnv { demoEnv with fees := [(1, 9223372036854775807500000000000000000), (2, 1500000000000000000)] }, .endBlock])).queue 1 =
+    [(1, 2, some (18446744073709551615, 553402322211286549, 184467440737095517))] := by decide
 
 /-- **zeroFee** (recorded observation, not a violation of a clause).  A fee record with multiplier 0 counts as
 "a relayer fee on record" for the pick (`buildValidatorsInfos` only asks for a record, `MsgSetRelayerFee`
